@@ -26,6 +26,8 @@ from asimap.pop3_parse import BadPOP3Command, parse_pop3_command
 from asimap.trace import trace
 
 if TYPE_CHECKING:
+    from email.message import EmailMessage
+
     from asimap.mbox import Mailbox
     from asimap.user_server import IMAPUserServer
 
@@ -330,16 +332,32 @@ class POP3CommandHandler:
 
     ##################################################################
     #
+    def _get_msg(self, pop3_num: int) -> "EmailMessage":
+        """
+        Get the message a POP3 message number stands for.
+
+        The message is looked up by the UID recorded in the snapshot, not
+        by its MH message key: while the session is open a key can be
+        given to another message (a delivery after the last message was
+        expunged reuses its key) and a pack renumbers the keys. UIDs are
+        never reused.
+
+        Raises KeyError if the message has been expunged since the
+        session started.
+        """
+        assert self.mbox is not None
+        return self.mbox.get_msg_by_uid(self.snapshot_uids[pop3_num - 1])
+
+    ##################################################################
+    #
     def _get_msg_size(self, pop3_num: int) -> int:
         """
         Get the size of a message in octets, computing lazily and
         caching the result.
         """
         if pop3_num not in self.msg_sizes:
-            assert self.mbox is not None
-            msg_key = self.snapshot_msg_keys[pop3_num - 1]
             try:
-                msg = self.mbox.get_msg(msg_key)
+                msg = self._get_msg(pop3_num)
                 self.msg_sizes[pop3_num] = get_msg_size(msg)
             except (KeyError, FileNotFoundError):
                 # Message disappeared (concurrent modification).
@@ -428,16 +446,19 @@ class POP3CommandHandler:
             await self.client.push("-ERR no such message\r\n")
             return True
 
-        assert self.mbox is not None
-        msg_key = self.snapshot_msg_keys[n - 1]
         try:
-            msg = self.mbox.get_msg(msg_key)
+            msg = self._get_msg(n)
         except (KeyError, FileNotFoundError):
             await self.client.push("-ERR message not available\r\n")
             return True
 
         msg_bytes = msg_as_bytes(msg)
         size = len(msg_bytes)
+
+        # Remember the size we announce: LIST and STAT keep giving it even
+        # if the message is expunged by another session later on.
+        #
+        self.msg_sizes[n] = size
         msg_bytes = dot_stuff(msg_bytes)
         await self.client.push(
             f"+OK {size} octets\r\n".encode("latin-1")
@@ -531,10 +552,8 @@ class POP3CommandHandler:
             await self.client.push("-ERR invalid number of lines\r\n")
             return True
 
-        assert self.mbox is not None
-        msg_key = self.snapshot_msg_keys[n - 1]
         try:
-            msg = self.mbox.get_msg(msg_key)
+            msg = self._get_msg(n)
         except (KeyError, FileNotFoundError):
             await self.client.push("-ERR message not available\r\n")
             return True
